@@ -454,6 +454,105 @@ def pair_worker(job):
     return acc
 
 
+# ------------------------------------------------------------------ client authentication dialogue: SUCCESS only for an outstanding request
+AUTH_EVENTS = ['ans:F', 'ans:P', 'ans:S', 'uns:F', 'uns:P', 'uns:S', 'uns:B', 'cb']
+
+
+def auth_dialogue(events, seed=0):
+    """Real client (password obtained from an async application callback, asked again after every
+    failure) against a scripted server.  Events: ans:X answers the outstanding request with FAILURE /
+    FAILURE(partial success) / SUCCESS; uns:X sends the same message (or a BANNER) while NO request is
+    outstanding (the client is parked in its callback); cb lets the callback return a password.
+    Returns None when the sequence is not enabled."""
+    futs = []
+    reqs = []
+    st = {'answered': 0}
+
+    class Cl(P.RecClient):
+        def password_auth_requested(self):
+            f = w.loop.create_future()
+            futs.append(f)
+            return f
+    holder = {}
+
+    def mk():
+        holder['o'] = Cl()
+        return holder['o']
+    w = H.CliWorld(seed=seed, copts=dict(client_factory=mk, password=None, preferred_auth='password', login_timeout=0),
+                   auto_auth=False)
+    rp = w.rp
+
+    def on_message(t, p):
+        if t == R.MSG_SERVICE_REQUEST:
+            rp.send(R.byte(R.MSG_SERVICE_ACCEPT) + p[1:])
+        elif t == R.MSG_USERAUTH_REQUEST:
+            reqs.append(_method(p))
+    rp.on_message = on_message
+    trace = []
+    viol = []
+    msgs = {'F': R.byte(R.MSG_USERAUTH_FAILURE) + R.namelist(['password']) + R.boolean(False),
+            'P': R.byte(R.MSG_USERAUTH_FAILURE) + R.namelist(['password']) + R.boolean(True),
+            'S': R.byte(R.MSG_USERAUTH_SUCCESS),
+            'B': R.byte(R.MSG_USERAUTH_BANNER) + R.string('hello') + R.string('')}
+    try:
+        w.start()
+        w.flush()
+        for ev in events:
+            if w.conn._transport is None or w.conn._auth_complete:
+                return None                       # dialogue over: longer sequences add nothing
+            outstanding = len(reqs) - st['answered']
+            if ev == 'cb':
+                pend = [f for f in futs if not f.done()]
+                if not pend:
+                    return None
+                pend[0].set_result('pw')
+            else:
+                kind, m = ev.split(':')
+                if (kind == 'ans') != (outstanding > 0):
+                    return None
+                if kind == 'ans':
+                    st['answered'] += 1
+                rp.send(msgs[m])
+            w.flush()
+            trace.append((ev, outstanding, len(reqs), bool(w.conn._auth_complete), w.conn._transport is None))
+            if w.conn._auth_complete and ev != 'ans:S':
+                viol.append(('success-accepted-without-outstanding-request',
+                             'client considers itself authenticated after %r; requests sent %d, answered %d'
+                             % (ev, len(reqs), st['answered'])))
+            if ev == 'uns:S' and w.copt.waiter.done() and not w.copt.waiter.cancelled() and w.copt.waiter.exception() is None:
+                viol.append(('connect-returned-on-unsolicited-success', 'connect() completed after an unsolicited SUCCESS'))
+        if w.loop.unretrieved():
+            viol.append(('loop-exception', repr(w.loop.exc_log[0].get('exception'))[:200]))
+    except Livelock as exc:
+        viol.append(('livelock', str(exc)))
+    except R.RefError as exc:
+        trace.append(('ref-error', str(exc)))
+    finally:
+        w.close()
+    return {'trace': trace, 'viol': viol, 'reqs': list(reqs)}
+
+
+def auth_worker(job):
+    prefixes, depth = job
+    acc = core.Acc()
+    for pre in prefixes:
+        frontier = [tuple(pre)]
+        while frontier:
+            seq = frontier.pop()
+            obs = auth_dialogue(seq)
+            if obs is None:
+                continue
+            acc.add(core.digest(('authdlg', seq)), transitions=1,
+                    sample={'server_events': list(seq), 'client_requests': obs['reqs']} if seq[-3:] == ('ans:P', 'uns:S', 'cb') else None)
+            for k, d in obs['viol']:
+                acc.violation('phase:%s:%s' % (k, '>'.join(e.split(':')[-1] if e != 'cb' else 'cb' for e in seq[-3:])),
+                              '%s ; events=%r' % (d, list(seq)), {'authdlg': list(seq)})
+            if len(seq) < depth and not obs['viol']:
+                for ev in AUTH_EVENTS:
+                    frontier.append(seq + (ev,))
+    return acc
+
+
 def seqreset_checks():
     """strict kex: a peer that does NOT restart its sequence number at NEWKEYS must be rejected;
     without strict kex the same peer behaviour (continuing numbers) is the correct one."""
@@ -509,11 +608,15 @@ def main(tier, seed):
                     for t1 in ptypes:
                         pj.append((role, pos, strict, t1, ptypes))
         acc.merge(core.pmap(pair_worker, core.rotate(pj, seed), chunksize=4))
+    depth = 5 if tier == 'quick' else 7
+    acc.merge(core.pmap(auth_worker, [([(a, b)], depth) for a in AUTH_EVENTS for b in AUTH_EVENTS]))
     rule = ('message type (1..100,192,255) x shape (well-formed, truncated, trailing byte) x position '
             '(%d server-side, %d client-side incl. pending auth request and client parked in an async '
             'password callback) x role under test x strict-kex on/off; thorough adds ordered pairs over '
-            'a reduced type set; distinct = distinct (role, position, strict, type, shape, outcome)'
-            % (len(SRV_POSITIONS), len(CLI_POSITIONS)))
+            'a reduced type set; client authentication dialogue: every enabled sequence of <= %d server events from '
+            '{answer with FAILURE / partial-success FAILURE / SUCCESS, the same unsolicited, BANNER, password callback '
+            'returns}; distinct = distinct (role, position, strict, type, shape, outcome)'
+            % (len(SRV_POSITIONS), len(CLI_POSITIONS), depth))
     return core.finish(PROP, tier, seed, 'model_checking', acc, t0, rule,
                        {'types': len(TYPES), 'positions_server': [str(p) for p in SRV_POSITIONS],
                         'positions_client': [str(p) for p in CLI_POSITIONS]},
@@ -524,6 +627,13 @@ def main(tier, seed):
 
 def replay(rep):
     r = rep['replay']
+    if 'authdlg' in r:
+        obs = auth_dialogue(tuple(r['authdlg']))
+        print(json.dumps(obs, indent=1, default=repr))
+        if obs and obs['viol']:
+            print('VIOLATION property=%s replay=(given)' % PROP)
+            return 1
+        return 0
     if 'seqreset' in r:
         acc = seqreset_checks()
         print(json.dumps(acc.violations, indent=1, default=repr))
